@@ -14,6 +14,7 @@
 //   offline  Tins::OfflinePacketFilter against pcap_offline_filter on the same bytes
 // Files live in a per-process directory below the directory of --out.
 #include "vh.h"
+#include <algorithm>
 #include <tins/tins.h>
 #include <tins/detail/pdu_helpers.h>
 #include <tins/offline_packet_filter.h>
@@ -258,11 +259,16 @@ static void scenario(const vh::Json& sc, vh::Out& out, vh::Rng& rng, const vh::A
     // ---- the file as libpcap itself reads it: link type, records, and which records the filter matches
     // the sniffer's filter: what libpcap says when the expression is compiled for this savefile (for DLT_NULL libpcap
     // generates different code for savefiles and for dead handles); the offline filter: compiled for a dead handle
+    // filters that are in force at some time: the one the sniffer is opened with, then those installed later by set_filter() calls
+    std::vector<int> fl(1, fid);
+    for (size_t c = 0; c < sc["calls"].size(); ++c) if (sc["calls"][c]["api"].str() == "setfilter") { int x = (int)sc["calls"][c]["k"].num(); if (x < 0 || x >= NFILTERS) x = 0; if (std::find(fl.begin(), fl.end(), x) == fl.end()) fl.push_back(x); }
+    std::vector<bpf_program> lprog(fl.size()); std::vector<char> lok(fl.size(), 0); std::vector<std::vector<char> > mm(n, std::vector<char>(fl.size(), 1));
     char err[PCAP_ERRBUF_SIZE]; int file_dlt = -1; bool fok = true; bpf_program prog, fprog; bool have_prog = false, have_fprog = false;
     { pcap_t* p = pcap_open_offline(pf.c_str(), err);
       if (p) { file_dlt = pcap_datalink(p);
           if (fid) { if (pcap_compile(p, &fprog, FILTERS[fid], 0, PCAP_NETMASK_UNKNOWN) == 0) have_fprog = true; else fok = false;
                      pcap_t* dead = pcap_open_dead(file_dlt, 65535); if (pcap_compile(dead, &prog, FILTERS[fid], 1, PCAP_NETMASK_UNKNOWN) == 0) have_prog = true; pcap_close(dead); }
+          for (size_t x = 0; x < fl.size(); ++x) lok[x] = fl[x] == 0 || pcap_compile(p, &lprog[x], FILTERS[fl[x]], 0, PCAP_NETMASK_UNKNOWN) == 0;
           pcap_pkthdr* h; const u_char* d; int i = 0; int rc;
           while ((rc = pcap_next_ex(p, &h, &d)) == 1) {
               while (i < n && !fr[i].wok) ++i;        // a record the writer failed to produce is simply not in the file
@@ -270,11 +276,14 @@ static void scenario(const vh::Json& sc, vh::Out& out, vh::Rng& rng, const vh::A
               Frame& f = fr[i];
               f.caplen = h->caplen; f.len = h->len;
               f.wok = h->caplen == f.bytes.size() && (f.bytes.empty() || !memcmp(d, &f.bytes[0], f.bytes.size())) && (long)h->ts.tv_sec == f.sec && (long)h->ts.tv_usec == f.usec;
-              f.m = have_fprog ? pcap_offline_filter(&fprog, h, d) != 0 : true; ++i; }
+              f.m = have_fprog ? pcap_offline_filter(&fprog, h, d) != 0 : true;
+              for (size_t x = 0; x < fl.size(); ++x) mm[i][x] = (fl[x] == 0 || !lok[x]) ? 1 : (pcap_offline_filter(&lprog[x], h, d) != 0);
+              ++i; }
+          for (size_t x = 0; x < fl.size(); ++x) if (fl[x] != 0 && lok[x]) pcap_freecode(&lprog[x]);
           pcap_close(p); } }
     { vh::W w; w.O().kv("e", "file").kv("flt", dlt_name(file_dlt)).kv("fok", fok).kv("filt", fid != 0).kv("wexc", wexc).key("fr").A();
-      for (int i = 0; i < n; ++i) w.O().kv("cls", fr[i].cls).kv("m", fr[i].m).kv("sec", fr[i].sec).kv("usec", fr[i].usec).kv("w", fr[i].how).kv("wok", fr[i].wok).kv("want", fr[i].want).kv("why", fr[i].foreign).E();
-      w.E().E(); out.event(w); }
+      for (int i = 0; i < n; ++i) { w.O().kv("cls", fr[i].cls).kv("m", fr[i].m).kv("sec", fr[i].sec).kv("usec", fr[i].usec).kv("w", fr[i].how).kv("wok", fr[i].wok).kv("want", fr[i].want).kv("why", fr[i].foreign).key("mm").A(); for (size_t x = 0; x < fl.size(); ++x) w.v(mm[i][x] != 0); w.E(); w.E(); }
+      w.E().key("fokl").A(); for (size_t x = 0; x < fl.size(); ++x) w.v(lok[x] != 0); w.E().E(); out.event(w); }
 
     // ---- read back with Tins::FileSniffer
     std::unique_ptr<FileSniffer> sn; std::string oexc = "none"; int omode = (int)rng.below(4);
@@ -288,12 +297,19 @@ static void scenario(const vh::Json& sc, vh::Out& out, vh::Rng& rng, const vh::A
     { vh::W w; w.O().kv("e", "open").kv("ok", sn.get() != 0).kv("exc", oexc).kv("mode", omode).E(); out.event(w); }
     if (sn && fok) {
         Reader rd; rd.fr = &fr; rd.n = n;
+        Packet kept = Packet(RawPDU("previously kept"), Timestamp(timeval{77, 77}));
         const vh::Json& calls = sc["calls"];
         for (size_t c = 0; c < calls.size(); ++c) {
             std::string api = calls[c]["api"].str(); long k = calls[c]["k"].num(); std::string exc = "none";
-            if (api == "next") {
+            if (api == "setfilter") {
+                int x = (int)k; if (x < 0 || x >= NFILTERS) x = 0; long which = (long)(std::find(fl.begin(), fl.end(), x) - fl.begin()) + 1; bool ok = false;
+                try { ok = sn->set_filter(FILTERS[x]); } catch (std::exception& e) { exc = exc_name(e); }
+                vh::W w; w.O().kv("e", "setfilter").kv("which", which).kv("fid", (long)x).kv("ok", ok).kv("exc", exc).E(); out.event(w);
+            } else if (api == "next") {
                 Got g; g.idx = 0; g.same = true; g.hasts = true; g.sec = 0; g.usec = 0;
-                try { Packet p(sn->next_packet()); if (p) { Timestamp ts = p.timestamp(); g = rd.see(p.pdu(), &ts); } }
+                // how the user keeps the packet: as handed out, or copy-assigned / move-assigned into a Packet that already holds another one
+                try { Packet p(sn->next_packet()); if (p) { int keep = (int)rng.below(3); if (keep == 1) { kept = p; } else if (keep == 2) { Packet q(p); kept = std::move(q); }
+                          Packet& u = keep ? kept : p; Timestamp ts = u.timestamp(); g = rd.see(u.pdu(), &ts); } }
                 catch (std::exception& e) { exc = exc_name(e); } catch (...) { exc = "?"; }
                 vh::W w; w.O().kv("e", "next").kv("idx", g.idx).kv("same", g.same).kv("sec", g.sec).kv("usec", g.usec).kv("exc", exc).E(); out.event(w);
             } else {
@@ -302,7 +318,7 @@ static void scenario(const vh::Json& sc, vh::Out& out, vh::Rng& rng, const vh::A
                     if (api == "iter") {
                         if (fv == 0 && k == 0) { for (Packet& p : *sn) { Timestamp ts = p.timestamp(); got.push_back(rd.see(p.pdu(), &ts)); } }
                         else if (fv == 1) { for (FileSniffer::iterator it = sn->begin(); it != sn->end(); it++) { Timestamp ts = it->timestamp(); got.push_back(rd.see(it->pdu(), &ts)); if (k && (long)got.size() == k) break; } }
-                        else { for (FileSniffer::iterator it = sn->begin(); it != sn->end(); ++it) { Packet& p = *it; Timestamp ts = p.timestamp(); got.push_back(rd.see(p.pdu(), &ts)); if (k && (long)got.size() == k) break; } }
+                        else { for (FileSniffer::iterator it = sn->begin(); it != sn->end(); ++it) { kept = *it; Timestamp ts = kept.timestamp(); got.push_back(rd.see(kept.pdu(), &ts)); if (k && (long)got.size() == k) break; } }
                     } else {
                         uint32_t maxp = api == "loopmax" ? (uint32_t)k : 0; long stop = api == "loop" ? k : 0;
                         // in every other scenario the handler "fails" on some packets the way user code does (rfind_pdu of a layer that is
@@ -312,7 +328,7 @@ static void scenario(const vh::Json& sc, vh::Out& out, vh::Rng& rng, const vh::A
                                                                             if (thrower && !last && got.size() % 3 == 2) { if (got.size() % 2) (void)pdu.rfind_pdu<DHCPv6>(); else throw malformed_packet(); }
                                                                             return !last; }, maxp);
                         else if (fv == 1) sn->sniff_loop([&](Packet& p) -> bool { Timestamp ts = p.timestamp(); got.push_back(rd.see(p.pdu(), &ts)); return !(stop && (long)got.size() == stop); }, maxp);
-                        else sn->sniff_loop([&](Packet p) -> bool { Timestamp ts = p.timestamp(); got.push_back(rd.see(p.pdu(), &ts)); return !(stop && (long)got.size() == stop); }, maxp);
+                        else sn->sniff_loop([&](Packet p) -> bool { kept = p; Timestamp ts = kept.timestamp(); got.push_back(rd.see(kept.pdu(), &ts)); return !(stop && (long)got.size() == stop); }, maxp);
                     }
                 } catch (std::exception& e) { exc = exc_name(e); } catch (...) { exc = "?"; }
                 vh::W w; w.O().kv("e", "loop").kv("api", api).kv("k", k).kv("fv", fv); put_got(w, got); w.kv("exc", exc).E(); out.event(w);
